@@ -38,7 +38,7 @@ const (
 var (
 	c23Spells = []string{"trailing-slash", "double-slash", "dot-segment", "trailing-dot", "dotdot-segment", "relative", "relative-slash", "relative-dot",
 		"symlink", "symlink-slash"}
-	c23MetaReadFaults = []string{"meta-garbage", "meta-truncated", "meta-is-directory", "meta-dangling-symlink"}
+	c23MetaReadFaults = []string{"meta-garbage", "meta-truncated", "meta-is-directory"}
 )
 
 // ValSpec describes the content of a treasure.
@@ -882,8 +882,8 @@ func runC23(s C23Scenario) pbt.Outcome {
 			}
 		}
 		nm, err := v2.ReadSwampName(b.hyd)
-		if err == nil && nm == "" && b.sw.Fault == "meta-missing" {
-			// the legacy folder held no name at all: there is nothing to preserve
+		if err == nil && nm == "" && (b.sw.Fault == "meta-missing" || b.sw.Fault == "meta-dangling-symlink") {
+			// the legacy folder holds no meta file (ENOENT): there is no name to preserve
 			classes["no-meta-file-nameless-hyd"] = true
 		} else if err != nil || nm != b.name {
 			return pbt.Failf("name", "%s: the migration is reported successful but ReadSwampName of the migrated file = %s, %v", tag, shortStr(nm), err)
@@ -998,7 +998,7 @@ func genC23Swamp(t *rapid.T, label string, faults bool) C23Swamp {
 	}
 	if faults && rapid.IntRange(0, 2).Draw(t, label+"hasfault") == 0 {
 		kinds := []string{"corrupt-chunk-garbage", "corrupt-chunk-empty", "corrupt-chunk-truncated-stream", "chunk-is-directory",
-			"chunk-dangling-symlink", "dir-at-hyd-path", "dir-at-hyd-path", "meta-missing"}
+			"chunk-dangling-symlink", "dir-at-hyd-path", "dir-at-hyd-path", "meta-missing", "meta-dangling-symlink"}
 		if !pbt.Open("C23", c23WitnessMeta) {
 			kinds = append(kinds, c23MetaReadFaults...)
 		}
@@ -1097,7 +1097,7 @@ func TestC23WitnessMetaReadError(t *testing.T) {
 	}
 	pbt.Witness(t, pbt.Spec[C23Scenario]{
 		ID: "C23", Facet: "witness-meta-read-error",
-		Rule:  "main generator with the meta file of the first legacy folder made undecodable / unreadable (garbage, truncated, a directory, a dangling symlink)",
+		Rule:  "main generator with the meta file of the first legacy folder made undecodable / unreadable (garbage, truncated gob, a directory)",
 		Quick: 40, Thorough: 400, Gen: gen, Run: runC23,
 	}, c23WitnessMeta, "name")
 }
